@@ -3,8 +3,11 @@
    [generate] flags of ledger/eval/eval.go (StartEvaluator, TransactionGroup, transaction,
    takeFee / Move / apply.Payment, endOfBlock, GenerateBlock over a pool, FinishBlock /
    WithProposer, Eval) for payments with close-to, fees and proposer payouts over rewards-free
-   accounts; [eval_generate] = flags (true, true), [eval_validate] = (true, false),
-   [eval_block _ false] = (false, false).
+   accounts; [eval_generate_cap P c0] = flags (true, true) with the node-local block size cap
+   [c0] the transaction pool may pass to StartEvaluator (0 = none; [eval_generate] is the
+   instance c0 = 0), [eval_generate_full] = the same, fed the way the pool feeds it: until the
+   first group that does not fit (ErrNoSpace), then GenerateBlock; [eval_validate] = (true,
+   false), [eval_block _ false] = (false, false).
 
    WHAT IS PROVED: the link between the two modes (for every ledger state, pool, participating
    set, proposer and eligibility), uniqueness of the generate-computed fields among accepted
@@ -22,7 +25,7 @@ From Coq Require Import NArith ZArith List Bool String.
 Import ListNotations.
 From Verif.lib Require Import Term.
 From Verif.model Require Import GenVal GenValCheck.
-From Verif.proofs Require Import GenValProofs GenValTheorems GenValSupply GenValNoValidate GenValCheckProofs.
+From Verif.proofs Require Import GenValProofs GenValTheorems GenValSupply GenValNoValidate GenValPayset GenValCheckProofs.
 Open Scope N_scope.
 
 (* Any block assembled from ANY pool (failing groups dropped), finished for ANY proposer, is
@@ -30,38 +33,38 @@ Open Scope N_scope.
    the payout and the proposal record.  Premises: the protocol carries ApplyData in blocks,
    RewardUnit > 0, agreement names a proposer when payouts are on, the money supply fits 64 bits
    (every finite set of accounts sums to at most S < 2^64; C18). *)
-Theorem C20_generate_validates : forall S P L r b pool parts proposer elig ub,
+Theorem C20_generate_validates : forall S P c0 L r b pool parts proposer elig ub,
   p_applydata P = true -> p_unit P <> 0 ->
   (p_payouts P = true -> proposer <> 0) ->
   bounded S (bal L []) -> S < W64 ->
-  eval_generate P L r b pool parts = Ok ub ->
+  eval_generate_cap P c0 L r b pool parts = Ok ub ->
   let blk := finish_block P ub proposer elig in
   exists d, eval_validate P L blk = Ok d /\ finish_delta P L (b_hdr blk) (ub_delta ub) = Ok d.
 Proof. exact generate_validates. Qed.
 Print Assumptions C20_generate_validates.
 
 (* the same link as an equation between results: no supply premise *)
-Theorem C20_generate_validates_eq : forall P L r b pool parts proposer elig ub,
+Theorem C20_generate_validates_eq : forall P c0 L r b pool parts proposer elig ub,
   p_applydata P = true ->
   (p_payouts P = true -> proposer <> 0) ->
-  eval_generate P L r b pool parts = Ok ub ->
+  eval_generate_cap P c0 L r b pool parts = Ok ub ->
   let blk := finish_block P ub proposer elig in
   eval_validate P L blk = finish_delta P L (b_hdr blk) (ub_delta ub).
 Proof. exact generate_validates_eq. Qed.
 Print Assumptions C20_generate_validates_eq.
 
 (* without payouts the validator's delta IS the generator's *)
-Theorem C20_generate_validates_same_delta : forall P L r b pool parts proposer elig ub,
+Theorem C20_generate_validates_same_delta : forall P c0 L r b pool parts proposer elig ub,
   p_applydata P = true -> p_payouts P = false ->
-  eval_generate P L r b pool parts = Ok ub ->
+  eval_generate_cap P c0 L r b pool parts = Ok ub ->
   eval_validate P L (finish_block P ub proposer elig) = Ok (ub_delta ub).
 Proof. exact generate_validates_same_delta. Qed.
 Print Assumptions C20_generate_validates_same_delta.
 
 (* the payout on top of the generator's delta cannot fail *)
-Theorem C20_payout_never_fails : forall S P L r b pool parts proposer elig ub,
+Theorem C20_payout_never_fails : forall S P c0 L r b pool parts proposer elig ub,
   p_unit P <> 0 -> bounded S (bal L []) -> S < W64 ->
-  eval_generate P L r b pool parts = Ok ub ->
+  eval_generate_cap P c0 L r b pool parts = Ok ub ->
   exists d, finish_delta P L (b_hdr (finish_block P ub proposer elig)) (ub_delta ub) = Ok d.
 Proof. exact payout_never_fails. Qed.
 Print Assumptions C20_payout_never_fails.
@@ -74,9 +77,9 @@ Print Assumptions C20_bounded_total.
 (* A block over the same transactions that validate mode accepts carries exactly the
    generate-computed fields: every ApplyData, genesis hash, rewards state, transaction root,
    transaction counter, fees collected, load; the payout may only be lower. *)
-Theorem C20_validate_unique : forall P L r b pool parts ub blk' d',
+Theorem C20_validate_unique : forall P c0 L r b pool parts ub blk' d',
   p_applydata P = true ->
-  eval_generate P L r b pool parts = Ok ub ->
+  eval_generate_cap P c0 L r b pool parts = Ok ub ->
   Forall2 same_txns (ub_payset ub) (b_payset blk') ->
   eval_validate P L blk' = Ok d' ->
   b_payset blk' = ub_payset ub /\
@@ -89,9 +92,9 @@ Proof. exact validate_unique. Qed.
 Print Assumptions C20_validate_unique.
 
 (* ... equivalently: a deviation in any of them is rejected *)
-Theorem C20_validate_rejects_deviation : forall P L r b pool parts ub blk',
+Theorem C20_validate_rejects_deviation : forall P c0 L r b pool parts ub blk',
   p_applydata P = true ->
-  eval_generate P L r b pool parts = Ok ub ->
+  eval_generate_cap P c0 L r b pool parts = Ok ub ->
   Forall2 same_txns (ub_payset ub) (b_payset blk') ->
   (b_payset blk' <> ub_payset ub \/
    h_genhash (b_hdr blk') <> h_genhash (ub_hdr ub) \/ h_rs (b_hdr blk') <> h_rs (ub_hdr ub) \/
@@ -101,6 +104,37 @@ Theorem C20_validate_rejects_deviation : forall P L r b pool parts ub blk',
   exists e, eval_validate P L blk' = Err e.
 Proof. exact validate_rejects_deviation. Qed.
 Print Assumptions C20_validate_rejects_deviation.
+
+(* TxnCounter, FeesCollected and Load of a generated header are functions of the generated
+   payset alone, for every pool / cap / interleaving of accepted, failing and not-fitting groups:
+   the counters the evaluator accumulates (txn count, feesCollected, blockTxBytes) keep no trace
+   of groups that were tried and dropped ... *)
+Theorem C20_generated_fields_of_payset : forall P c0 L r b pool parts ub,
+  eval_generate_cap P c0 L r b pool parts = Ok ub ->
+  h_counter (ub_hdr ub) = (if p_txncounter P then (lv_counter L + payset_count (ub_payset ub)) mod W64 else 0) /\
+  (p_payouts P = true -> h_fees (ub_hdr ub) = payset_fees L (ub_payset ub) mod W64) /\
+  (p_loadtracking P = true -> compute_load (payset_bytes (ub_payset ub)) (p_maxbytes P) = Ok (h_load (ub_hdr ub))).
+Proof. exact generated_fields_of_payset. Qed.
+Print Assumptions C20_generated_fields_of_payset.
+
+(* ... and validate mode accepts a block only if its header carries the same functions of its
+   own payset *)
+Theorem C20_validated_fields_of_payset : forall P L blk d,
+  p_applydata P = true ->
+  eval_validate P L blk = Ok d ->
+  h_counter (b_hdr blk) = (if p_txncounter P then (lv_counter L + payset_count (b_payset blk)) mod W64 else 0) /\
+  (p_payouts P = true -> h_fees (b_hdr blk) = payset_fees L (b_payset blk) mod W64) /\
+  (p_loadtracking P = true -> compute_load (payset_bytes (b_payset blk)) (p_maxbytes P) = Ok (h_load (b_hdr blk))).
+Proof. exact validated_fields_of_payset. Qed.
+Print Assumptions C20_validated_fields_of_payset.
+
+(* the pool's "fill until ErrNoSpace, then GenerateBlock" is generation from a prefix of the
+   pool: every theorem above covers full blocks *)
+Theorem C20_generate_full_is_generate : forall P c0 L r b pool parts ub,
+  eval_generate_full P c0 L r b pool parts = Ok ub ->
+  exists k, eval_generate_cap P c0 L r b (firstn k pool) parts = Ok ub.
+Proof. exact generate_full_is_generate. Qed.
+Print Assumptions C20_generate_full_is_generate.
 
 (* Ledger.AddBlock's non-validating re-evaluation of an accepted block gives the same delta *)
 Theorem C20_addblock_same_delta : forall P L blk d,
@@ -120,9 +154,18 @@ Theorem C20_spec_ok_sound : forall o, spec_ok o = true ->
   (forall e, In e (o_errs o) -> e = 0) /\
   (forall x y, In x (o_digests o) -> In y (o_digests o) -> x = y) /\
   (forall x y, In x (o_red o) -> In y (o_red o) -> x = y) /\
-  (forall m, In m (o_muts o) -> fst m = true -> snd m = true).
+  (forall m, In m (o_muts o) -> fst m = true -> snd m = true) /\
+  hdr_of_payset_ok (o_ps o) = true.
 Proof. exact spec_ok_sound. Qed.
 Print Assumptions C20_spec_ok_sound.
+
+Theorem C20_hdr_of_payset_ok_sound : forall lt maxb bytes load tc prev ntx counter po feesum fees,
+  hdr_of_payset_ok [lt; maxb; bytes; load; tc; prev; ntx; counter; po; feesum; fees] = true ->
+  (lt <> 0 -> compute_load bytes maxb = Ok load) /\ (lt = 0 -> load = 0) /\
+  counter = (if tc =? 0 then 0 else (prev + ntx) mod W64) /\
+  fees = (if po =? 0 then 0 else feesum mod W64).
+Proof. exact hdr_of_payset_ok_sound. Qed.
+Print Assumptions C20_hdr_of_payset_ok_sound.
 
 (* non-vacuity: a pool of six groups (overspend, committed duplicate and a below-minimum
    receiver are dropped; one member closes its account; a two-member group pools its fee) *)
@@ -153,3 +196,14 @@ Example C20_instance_rejects :
     eval_validate ex_P ex_L (ex_tamper_hdr (fun h => set_end h (h_root h) (h_counter h) (h_fees h) (h_payout h) (h_load h + 1)) blk) = Err E_LOAD /\
     (exists d, eval_validate ex_P ex_L (ex_tamper_hdr (fun h => set_payout h (h_payout h - 1)) blk) = Ok d).
 Proof. exact ex_rejects. Qed.
+
+(* a full block: node-local cap 450 bytes, the last group does not fit (ErrNoSpace), the block
+   is generated right away, carries the Load of its 400 bytes and validates *)
+Example C20_instance_full :
+  exists ub d, ex_ub_full = Ok ub /\
+    map (fun g => map (fun s : stib => t_id (fst s)) (g_txns g)) (ub_payset ub) = [[1]; [3]] /\
+    gen_codes (mkEnv ex_P true true 8 450) ex_L (mkEv (put layer0 14 (mkAcct 100000 0)) [] 0) ex_pool
+      = [0; E_OVERSPEND; E_DUP; 0; E_MINBAL; E_NOSPACE] /\
+    h_load (ub_hdr ub) = 76 /\ payset_bytes (ub_payset ub) = 400 /\
+    eval_validate ex_P ex_L (finish_block ex_P ub 2 true) = Ok d.
+Proof. exact ex_full. Qed.
